@@ -736,6 +736,32 @@ func c16Project(t *testing.T, r *vReport, idx *int64, only string) {
 		}
 		os.WriteFile(filepath.Join(root, f), []byte(c16ProjFiles[f]), 0o644)
 	}
+	// the caller's side: the payload inside the path of a local action / local reusable workflow
+	// that does not exist (operating-system errors echo the path)
+	for _, pl := range c16Payloads {
+		for vi, v := range []struct{ old, new string }{
+			{"uses: ./.github/workflows/callee.yml", `uses: "./.github/workflows/x` + pl.yaml + `y.yml"`},
+			{"uses: ./act", `uses: "./act` + pl.yaml + `"`},
+			{"uses: ./act", `uses: "./` + pl.yaml + `/../act"`},
+		} {
+			what := fmt.Sprintf("project caller uses-path variant %d payload %s", vi, pl.name)
+			if only != "" && only != what {
+				continue
+			}
+			*idx++
+			if only == "" && !r.Mine(*idx) {
+				continue
+			}
+			src := strings.Replace(mainSrc, v.old, v.new, 1)
+			proj, err := NewProject(root)
+			if err != nil {
+				r.HarnessError("%v", err)
+				return
+			}
+			r.Begin(func() string { return what })
+			c16CheckRenderAt(r, what, mainPath, src, proj, map[string]any{"what": what, "src": src})
+		}
+	}
 }
 
 // c16CaretTemplates: a diagnosed token («») written after other text (§) on the same line.
